@@ -40,7 +40,31 @@ def tree_hash():
     return h.hexdigest()[:16]
 
 
+class FileLock:
+    """advisory lock: several checks may run at once and share the build directories"""
+
+    def __init__(self, path):
+        self.path = path
+
+    def __enter__(self):
+        import fcntl
+        os.makedirs(os.path.dirname(self.path), exist_ok=True)
+        self.f = open(self.path, "w")
+        fcntl.flock(self.f, fcntl.LOCK_EX)
+        return self
+
+    def __exit__(self, *a):
+        import fcntl
+        fcntl.flock(self.f, fcntl.LOCK_UN)
+        self.f.close()
+
+
 def build_driver():
+    with FileLock(os.path.join(BUILD, "driver.lock")):
+        return _build_driver()
+
+
+def _build_driver():
     src = os.path.join(VERIF, "engines", "driver")
     tgt = os.path.join(BUILD, "driver")
     os.makedirs(tgt, exist_ok=True)
